@@ -174,6 +174,7 @@ class Scheduler:
 
 
 CURRENT = None  # the Scheduler of the execution in progress (one per process)
+_EXECS = 0
 
 
 def yield_point():
@@ -184,7 +185,8 @@ def yield_point():
 
 
 class ModelPool:
-    """What multiprocessing.pool.ThreadPool(processes).map means in CPython 3.12, for the baton scheduler:
+    """What multiprocessing.pool.ThreadPool(processes).map means in CPython 3.12, for the baton scheduler (after close() or
+    terminate() new work is refused with ValueError, as the real pool does):
     materialise the iterable in the caller; chunksize = ceil(n / (4*workers)); FIFO chunk queue; a chunk is
     list(map(f, chunk)) so an exception skips the rest of its chunk only; map returns only after ALL chunks have
     finished and raises the first recorded failure; close()/terminate()/join() have no semantic effect."""
@@ -193,6 +195,12 @@ class ModelPool:
         self.processes = processes or (os.cpu_count() or 1)
         if self.processes < 1:
             raise ValueError("Number of processes must be at least 1")
+        self._running = True
+
+    def _check_running(self):
+        # the real pool refuses new work once close() or terminate() has been called
+        if not self._running:
+            raise ValueError("Pool not running")
 
     @staticmethod
     def chunks_for(n, workers, chunksize=None):
@@ -205,6 +213,7 @@ class ModelPool:
         return chunksize
 
     def map(self, func, iterable, chunksize=None):
+        self._check_running()
         tasks = list(iterable)
         cs = self.chunks_for(len(tasks), self.processes, chunksize)
         chunks = [tasks[i:i + cs] for i in range(0, len(tasks), cs)] if cs else []
@@ -244,10 +253,10 @@ class ModelPool:
         return ModelAsyncResult(lambda: self.apply(func, args, kwds), callback, error_callback)
 
     def close(self):
-        pass
+        self._running = False
 
     def terminate(self):
-        pass
+        self._running = False
 
     def join(self):
         pass
@@ -418,8 +427,14 @@ def _rebind(pool):
 
 def execute(body, prefix=(), record_trace=False):
     """Run body() under a fresh Scheduler. Returns (scheduler, result or exception)."""
-    global CURRENT
+    global CURRENT, _EXECS
+    import gc
+
     s = Scheduler(prefix, record_trace)
+    # finalizers (__del__) of objects from EARLIER executions may run monitored library code; if the cyclic collector fired
+    # in the middle of an execution they would add scheduling points at GC-determined places. Own that nondeterminism:
+    # no collection during an execution, a full one every few executions while no scheduler is listening.
+    gc.disable()
     CURRENT = s
     try:
         try:
@@ -428,6 +443,10 @@ def execute(body, prefix=(), record_trace=False):
             out = ("exc", e)
     finally:
         CURRENT = None
+        _EXECS += 1
+        if _EXECS % 64 == 0:
+            gc.collect()
+        gc.enable()
     return s, out
 
 
